@@ -9,7 +9,7 @@ one field at a time.  Data blocks / fragment blocks / single metadata blocks can
 
 Layout: super | data area | inode table | directory table | fragment table | export table | id table | xattr table
 """
-import struct, zlib
+import lzma, struct, zlib
 
 META = 8192
 T_DIR, T_FILE, T_SLINK, T_BDEV, T_CDEV, T_FIFO, T_SOCK = 1, 2, 3, 4, 5, 6, 7
@@ -36,10 +36,28 @@ class Node:
         return self.typ if self.typ <= 7 else self.typ - 7
 
 
+def py_codec(comp_id):
+    """block compressors written here (not the code under test): gzip = zlib, xz, lzma (the LZMA-alone container with the
+    uncompressed size stored in the header, as squashfs wants it); None for the others (lz4, zstd, lzo: no Python codec;
+    the check supplies the real compressor for those)"""
+    if comp_id == 1:
+        return zlib.compress
+    if comp_id == 4:
+        return lambda d: lzma.compress(d, format=lzma.FORMAT_XZ, check=lzma.CHECK_CRC32)
+    if comp_id == 2:
+        def alone(d):
+            c = lzma.compress(d, format=lzma.FORMAT_ALONE)
+            return c[:5] + struct.pack("<Q", len(d)) + c[13:]
+        return alone
+    return None
+
+
 class Forge:
-    def __init__(self, block_size=4096, compress_meta=False):
+    def __init__(self, block_size=4096, compress_meta=False, comp_id=1, codec=None):
         self.bs = block_size
         self.compress_meta = compress_meta
+        self.comp_id = comp_id                      # super.compression_id
+        self.codec = codec or py_codec(comp_id) or (lambda d: None)      # bytes -> compressed bytes | None
         self.nodes = []
         self.data = bytearray()           # data area (starts at offset 96)
         self.frags = []                   # (start, size word)
@@ -60,8 +78,8 @@ class Forge:
         """append a block to the data area; returns (absolute offset, size word)"""
         off = 96 + len(self.data)
         if compress:
-            c = zlib.compress(payload)
-            if len(c) < len(payload):
+            c = self.codec(bytes(payload))
+            if c is not None and len(c) < len(payload):
                 self.data += c
                 return off, len(c)
         self.data += payload
@@ -118,8 +136,8 @@ class Forge:
         for k in range(0, max(len(stream), 1), META):
             chunk = bytes(stream[k:k + META])
             if self.compress_meta:
-                c = zlib.compress(chunk)
-                if len(c) < len(chunk):
+                c = self.codec(chunk)
+                if c is not None and len(c) < len(chunk):
                     out += struct.pack("<H", len(c)) + c
                     continue
             self.fields.append((base + len(out), 2, "%s.hdr%d" % (label, k // META)))
@@ -300,7 +318,7 @@ class Forge:
                 img += struct.pack("<Q", l)
         bytes_used = len(img)
         sup = dict(magic=0x73717368, inode_count=len(nodes), mtime=1700000000, block_size=self.bs, frag_count=len(self.frags),
-                   comp=1, block_log=self.bs.bit_length() - 1, flags=(0 if self.compress_meta else 0x0001 | 0x0002 | 0x0008 | 0x0800) |
+                   comp=self.comp_id, block_log=self.bs.bit_length() - 1, flags=(0 if self.compress_meta else 0x0001 | 0x0002 | 0x0008 | 0x0800) |
                    (0 if self.xattrs else 0x0200) | (0 if self.frags else 0x0010), id_count=len(self.ids), vmaj=4, vmin=0,
                    root=self.ref_of(root.pos), bytes_used=bytes_used, id_table=id_table_start, xattr_table=xattr_table_start,
                    inode_table=inode_table_start, dir_table=dir_table_start, frag_table=frag_table_start, export_table=export_table_start)
@@ -320,9 +338,9 @@ class Forge:
 
 
 # ---------------------------------------------------------------------- ready-made images
-def sample_tree(rng, block_size=4096, compress_meta=False, compress_data=False, big=False):
+def sample_tree(rng, block_size=4096, compress_meta=False, compress_data=False, big=False, comp_id=1, codec=None):
     """a valid image that uses every inode type, fragments, sparse blocks, xattrs and a directory index"""
-    fg = Forge(block_size, compress_meta)
+    fg = Forge(block_size, compress_meta, comp_id, codec)
     bs = block_size
     fragdata = bytes(rng.randrange(256) for _ in range(600)) + b"tail-of-file-two" * 20
     fidx = fg.add_fragment_block(fragdata + bytes(bs - len(fragdata)) if rng.random() < 0.5 else fragdata, compress_data)
@@ -386,7 +404,15 @@ def parse_dirs(img, limit=200000):
         raw = img[at + 2:at + 2 + n]
         if len(raw) != n:
             raise ValueError
-        return (raw if h & 0x8000 else zlib.decompress(raw)), at + 2 + n
+        if h & 0x8000:
+            return raw, at + 2 + n
+        try:
+            return zlib.decompress(raw), at + 2 + n
+        except zlib.error:
+            try:
+                return lzma.decompress(raw), at + 2 + n          # xz container / LZMA-alone
+            except lzma.LZMAError:
+                raise ValueError
 
     def read(at, off, n):
         out = b""
